@@ -7,8 +7,9 @@ namespace EzdxfVerif.Doc
 
 def brs (s : State) : List Nat := s.blocks.map (·.2.2)
 
-/-- the BLOCK_RECORD table and the entity spaces describe the same containers, each once -/
-def BInv (s : State) : Prop := (brs s).Nodup ∧ ∀ b ∈ brs s, b ∈ keys s.spaces
+/-- the BLOCK_RECORD table and the entity spaces describe the same containers: each block record once, every block
+    record has an entity space and every entity space belongs to a block record of the table -/
+def BInv (s : State) : Prop := (brs s).Nodup ∧ (∀ b ∈ brs s, b ∈ keys s.spaces) ∧ (∀ k ∈ keys s.spaces, k ∈ brs s)
 
 theorem liveContent_alive (s : State) (k x : Nat) (hx : x ∈ liveContent s k) : isAlive s x = true := by
   simp only [liveContent, List.mem_filter] at hx
@@ -233,8 +234,8 @@ theorem BInv.of_same_tables {s s' : State} (h : BInv s) (hb : s'.blocks = s.bloc
   unfold BInv brs at *
   rw [hb, hk]; exact h
 
-theorem newEnt_tables (s : State) (k h seed : Nat) (r : Option Str) :
-    (newEnt s k h seed r).1.blocks = s.blocks ∧ keys (newEnt s k h seed r).1.spaces = keys s.spaces := by
+theorem newEnt_tables (s : State) (k h seed : Nat) (r : Option Str) (subs : List Nat) :
+    (newEnt s k h seed r subs).1.blocks = s.blocks ∧ keys (newEnt s k h seed r subs).1.spaces = keys s.spaces := by
   unfold newEnt; split
   · exact ⟨rfl, rfl⟩
   · split
@@ -265,15 +266,22 @@ theorem addExisting_tables (s : State) (k e : Nat) :
 theorem dropContainer_BInv (s : State) (br : Nat) (h : BInv s) : BInv (dropContainer s br) := by
   unfold BInv brs at *
   simp only [dropContainer]
-  constructor
+  refine ⟨?_, ?_, ?_⟩
   · exact h.1.sublist (List.Sublist.map _ List.filter_sublist)
   · intro b hb
     simp only [List.mem_map, List.mem_filter] at hb
     obtain ⟨x, ⟨hx, hne⟩, rfl⟩ := hb
-    have := h.2 x.2.2 (by simp only [List.mem_map]; exact ⟨x, hx, rfl⟩)
+    have := h.2.1 x.2.2 (by simp only [List.mem_map]; exact ⟨x, hx, rfl⟩)
     simp only [keys, List.mem_map, List.mem_filter] at this ⊢
     obtain ⟨p, hp, hpk⟩ := this
     exact ⟨p, ⟨hp, by simpa [hpk] using hne⟩, hpk⟩
+  · intro k hk
+    simp only [keys, List.mem_map, List.mem_filter] at hk
+    obtain ⟨p, ⟨hp, hne⟩, rfl⟩ := hk
+    have := h.2.2 p.1 (by simp only [keys, List.mem_map]; exact ⟨p, hp, rfl⟩)
+    simp only [List.mem_map, List.mem_filter] at this ⊢
+    obtain ⟨x, hx, hxk⟩ := this
+    exact ⟨x, ⟨hx, by simpa [hxk] using hne⟩, hxk⟩
 
 theorem blockBr_mem {s : State} {key : Str} {br : Nat} (h : blockBr s key = some br) : br ∈ brs s := by
   unfold blockBr at h
@@ -294,7 +302,7 @@ theorem renameBlock_BInv (s : State) (a b : Str) (h : BInv s) : BInv (renameBloc
     · unfold BInv brs at *
       simp only [List.map_append, List.map_cons, List.map_nil]
       have hmem := blockBr_mem hbr
-      constructor
+      refine ⟨?_, ?_, ?_⟩
       · refine List.nodup_append.mpr ⟨h.1.sublist (List.Sublist.map _ List.filter_sublist), by simp, ?_⟩
         intro x hx y hy
         simp only [List.mem_singleton] at hy; subst hy
@@ -304,8 +312,16 @@ theorem renameBlock_BInv (s : State) (a b : Str) (h : BInv s) : BInv (renameBloc
       · intro x hx
         simp only [List.mem_append, List.mem_map, List.mem_filter, List.mem_singleton] at hx
         rcases hx with ⟨z, ⟨hz, _⟩, rfl⟩ | rfl
-        · exact h.2 _ (by simp only [List.mem_map]; exact ⟨z, hz, rfl⟩)
-        · exact h.2 _ hmem
+        · exact h.2.1 _ (by simp only [List.mem_map]; exact ⟨z, hz, rfl⟩)
+        · exact h.2.1 _ hmem
+      · intro k hk
+        have := h.2.2 k hk
+        simp only [List.mem_map] at this
+        obtain ⟨z, hz, rfl⟩ := this
+        simp only [List.mem_append, List.mem_map, List.mem_filter, List.mem_singleton]
+        by_cases hzb : z.2.2 = br
+        · exact Or.inr hzb
+        · exact Or.inl ⟨z, ⟨hz, by simpa using hzb⟩, rfl⟩
 
 theorem setActive_BInv (s : State) (n : Str) (h : BInv s) : BInv (setActive s n).1 := by
   unfold setActive
@@ -326,17 +342,80 @@ theorem newContainer_BInv {s : State} (hi : DocInv s) (h : BInv s) (key name : S
   unfold BInv brs at *
   rw [hb, hs]
   simp only [List.map_append, List.map_cons, List.map_nil, keys]
-  constructor
+  refine ⟨?_, ?_, ?_⟩
   · refine List.nodup_append.mpr ⟨h.1, by simp, ?_⟩
     intro x hx y hy
     simp only [List.mem_singleton] at hy; subst hy
-    have := hi.2.2.1 x (h.2 x hx)
+    have := hi.2.2.1 x (h.2.1 x hx)
     omega
   · intro x hx
     simp only [List.mem_append, List.mem_singleton] at hx ⊢
     rcases hx with hx | rfl
-    · exact Or.inl (h.2 x hx)
+    · exact Or.inl (h.2.1 x hx)
     · exact Or.inr rfl
+  · intro x hx
+    simp only [List.mem_append, List.mem_singleton] at hx ⊢
+    rcases hx with hx | rfl
+    · exact Or.inl (h.2.2 x hx)
+    · exact Or.inr rfl
+
+theorem dropAll_BInv : ∀ (l : List Nat) (s : State), BInv s → BInv (dropAll s l)
+  | [], _, h => h
+  | a :: r, s, h => by
+    simp only [dropAll, List.foldl_cons]
+    exact dropAll_BInv r _ (dropContainer_BInv s a h)
+
+theorem blockName_mem {s : State} {br : Nat} {n : Str} (h : blockName s br = some n) : br ∈ brs s := by
+  unfold blockName at h
+  cases hf : s.blocks.find? (·.2.2 = br) with
+  | none => simp [hf] at h
+  | some b =>
+    have hb : b.2.2 = br := by simpa using List.find?_some hf
+    simp only [brs, List.mem_map]
+    exact ⟨b, List.mem_of_find?_eq_some hf, hb⟩
+
+theorem restoreActive_BInv (s : State) (h : BInv s) : BInv (restoreActive s) := by
+  unfold restoreActive
+  split
+  · split
+    · rename_i l hl
+      have hcand := List.find?_some hl
+      have hmem : l.br ∈ brs s := by
+        simp only [Bool.and_eq_true] at hcand
+        cases hbn : blockName s l.br with
+        | none => simp [hbn] at hcand
+        | some n => exact blockName_mem hbn
+      unfold BInv brs at *
+      simp only [List.map_append, List.map_cons, List.map_nil]
+      refine ⟨?_, ?_, ?_⟩
+      · refine List.nodup_append.mpr ⟨h.1.sublist (List.Sublist.map _ List.filter_sublist), by simp, ?_⟩
+        intro x hx y hy
+        simp only [List.mem_singleton] at hy; subst hy
+        simp only [List.mem_map, List.mem_filter] at hx
+        obtain ⟨z, ⟨_, hz⟩, rfl⟩ := hx
+        simpa using hz
+      · intro x hx
+        simp only [List.mem_append, List.mem_map, List.mem_filter, List.mem_singleton] at hx
+        rcases hx with ⟨z, ⟨hz, _⟩, rfl⟩ | rfl
+        · exact h.2.1 _ (by simp only [List.mem_map]; exact ⟨z, hz, rfl⟩)
+        · exact h.2.1 _ hmem
+      · intro k hk
+        have := h.2.2 k hk
+        simp only [List.mem_map] at this
+        obtain ⟨z, hz, rfl⟩ := this
+        simp only [List.mem_append, List.mem_map, List.mem_filter, List.mem_singleton]
+        by_cases hzb : z.2.2 = l.br
+        · exact Or.inr hzb
+        · exact Or.inl ⟨z, ⟨hz, by simpa using hzb⟩, rfl⟩
+    · exact h
+  · exact h
+
+theorem audit_BInv (s : State) (h : BInv s) : BInv (audit s).1 := by
+  have h1 : BInv (auditSpaces s) := by
+    refine h.of_same_tables rfl ?_
+    simp [auditSpaces, keys, List.map_map, Function.comp_def]
+  have h2 : BInv (auditLayouts (auditSpaces s)) := restoreActive_BInv _ (dropAll_BInv _ _ h1)
+  exact h2.of_same_tables rfl rfl
 
 /-- the block table and the entity spaces stay in step, for every operation -/
 theorem step_BInv (s : State) (op : Op) (hi : DocInv s) (h : BInv s) : BInv (step s op).1 := by
@@ -365,12 +444,53 @@ theorem step_BInv (s : State) (op : Op) (hi : DocInv s) (h : BInv s) : BInv (ste
     · rename_i s1 h1
       exact (h.of_same_tables (unlinkCore_tables h1).1 (unlinkCore_tables h1).2).of_same_tables rfl rfl
   | destroy e => exact h.of_same_tables rfl rfl
-  | copy e k x seed =>
+  | copy e k x subs seed =>
     simp only [step]; split
     · split
-      · exact h.of_same_tables (newEnt_tables ..).1 (newEnt_tables ..).2
+      · split
+        · exact h.of_same_tables (newEnt_tables ..).1 (newEnt_tables ..).2
+        · exact h
       · exact h
     · exact h
+  | addL k r x subs seed => exact h.of_same_tables (newEnt_tables ..).1 (newEnt_tables ..).2
+  | explode e news seed =>
+    rcases explode_cases s e news seed with ⟨er, h0⟩ | ⟨x, name, k, b, s', hx, hal, hr, ho, hsp, hb, hshape, hfresh, htexts, hcore, hstep⟩
+    · rw [h0]; exact h
+    · rw [hstep]
+      obtain ⟨s2, h2, rfl⟩ := explodeCore_parts hcore
+      refine (h.of_same_tables (s' := s2) ?_ ?_).of_same_tables rfl rfl
+      · rw [(unlinkCore_tables h2).1]; rfl
+      · rw [(unlinkCore_tables h2).2]; simp only [explodeMid, keys_setSpace]
+  | audit seed =>
+    simp only [step]; split
+    · exact (audit_BInv s h).of_same_tables rfl rfl
+    · exact h
+  | addEntry t n seed =>
+    simp only [step]; split
+    · exact h
+    · split
+      · exact h.of_same_tables rfl rfl
+      · exact h
+  | delEntry t n => simp only [step]; split <;> first | exact h | exact h.of_same_tables rfl rfl
+  | dupEntry t a b seed =>
+    simp only [step]; split
+    · exact h
+    · split
+      · exact h.of_same_tables rfl rfl
+      · exact h
+  | newGroup n x seed =>
+    simp only [step]; split
+    · exact h
+    · split
+      · exact h.of_same_tables rfl rfl
+      · exact h
+  | setGroup n ms =>
+    simp only [step]; split
+    · exact h
+    · split
+      · exact h.of_same_tables rfl rfl
+      · exact h
+  | delGroup n => simp only [step]; split <;> first | exact h | exact h.of_same_tables rfl rfl
   | purge =>
     refine h.of_same_tables rfl ?_
     simp [step, keys, List.map_map, Function.comp_def]
